@@ -228,6 +228,16 @@ class Ctx:
         r = self.solver.check(z3.Not(prop))
         self.stats['queries'] += 1
         self.stats['solver_s'] += time.perf_counter() - t0
+        if r == z3.unknown:
+            # identities that do not need the path condition: try to prove them in an empty context
+            s2 = z3.Solver()
+            s2.set('timeout', 5000)
+            t0 = time.perf_counter()
+            r2 = s2.check(z3.Not(prop))
+            self.stats['queries'] += 1
+            self.stats['solver_s'] += time.perf_counter() - t0
+            if r2 == z3.unsat:
+                return 'proved', None
         if r == z3.unsat:
             return 'proved', None
         if r == z3.sat and not self.refine:
